@@ -488,6 +488,9 @@ fn twin_of(sys: &Sys, ev: &Value) -> Option<Value> {
 fn run_events(w: &World, sys: &Sys, mut snap: Value, evs: &[Value], events: &mut Vec<Value>) -> Value {
     for ev in evs {
         let mut rec = ev.as_object().unwrap().clone();
+        // "then": calls to issue on the same directories right after this one (read-back after a write)
+        let then = rec.remove("then");
+        let ev = &Value::Object(rec.clone());
         for (k, v) in apply(sys, ev) {
             rec.insert(k, v);
         }
@@ -501,6 +504,9 @@ fn run_events(w: &World, sys: &Sys, mut snap: Value, evs: &[Value], events: &mut
             snap = after;
         }
         events.push(Value::Object(rec));
+        if let Some(Value::Array(follow)) = then {
+            snap = run_events(w, sys, snap, &follow, events);
+        }
     }
     snap
 }
